@@ -332,7 +332,40 @@ class TrigPoly:
                 r = _frac(math.sqrt(float(q)))
                 if r * r == q:
                     return TrigPoly.const(r)
+        r = _sqrt_by_registry(self)
+        if r is not None:
+            return r
         raise TypeError("sqrt of a general trig polynomial (use an algebraic atom)")
+
+    # order comparisons: constants directly; otherwise only facts that follow from the registered domain (see UNIT_ROOTS)
+    def _order(self, o, opname):
+        o = _lift(o)
+        if o is NotImplemented:
+            return NotImplemented
+        d = self - o
+        if d.is_const():
+            z = c_to_complex(d.t.get((), ZERO))
+            if abs(z.imag) > 1e-15:
+                raise Undecided("order comparison of a complex constant")
+            return {"lt": z.real < 0, "le": z.real <= 0, "gt": z.real > 0, "ge": z.real >= 0}[opname]
+        r = _order_by_registry(self, o, opname)
+        if r is not None:
+            return r
+        if CTX is not None and hasattr(CTX, "decide_poly_order"):
+            return CTX.decide_poly_order(self, o, opname)
+        raise Undecided(f"order comparison between trig polynomials: {self!r} {opname} {o!r}")
+
+    def __lt__(self, o):
+        return self._order(o, "lt")
+
+    def __le__(self, o):
+        return self._order(o, "le")
+
+    def __gt__(self, o):
+        return self._order(o, "gt")
+
+    def __ge__(self, o):
+        return self._order(o, "ge")
 
     def evaluate(self, env):
         """numeric value for concrete atom angles: env[atom name] = angle in radians (the atom is cis(angle))"""
@@ -356,6 +389,97 @@ class TrigPoly:
 
 
 CTX = None  # decision context installed by the harness (pyvc/linrow.py); None = purely structural comparisons
+
+
+# Domain knowledge for probabilities: UNIT_ROOTS holds trig polynomials known to take values in [0, 1] on the parameter domain
+# (sin t and cos t for t in [0, pi/2], and their products).  Then c * b**2 with a rational 0 <= c is a perfect square with root
+# sqrt(c) * b (when sqrt(c) lies in Q(zeta_48)), and lies in [0, 1] when c <= 1.  A harness installs the list for the duration
+# of one obligation.
+UNIT_ROOTS = []
+
+
+def _const_sqrt(q):
+    """exact sqrt of a nonnegative rational inside Q(zeta_48): rational squares times 1, 2, 3 or 6"""
+    q = Fraction(q)
+    if q < 0:
+        return None
+    if q == 0:
+        return TrigPoly()
+    for m, root in ((1, None), (2, "s2"), (3, "s3"), (6, "s6")):
+        x = q / m
+        r = _frac(math.sqrt(float(x)))
+        if r * r == x:
+            base = TrigPoly.const(r)
+            if root is None:
+                return base
+            s2 = Sqrt2(1).as_poly()
+            s3 = TrigPoly({(): c_add(c_zeta_pow(4), c_zeta_pow(-4))})  # 2 cos(pi/6)
+            return base * (s2 if root == "s2" else s3 if root == "s3" else s2 * s3)
+    return None
+
+
+def _rational_multiple(X, B):
+    """c with X == c * B for a rational c, else None"""
+    if not B.t or not X.t:
+        return None
+    k0 = next(iter(B.t))
+    if k0 not in X.t:
+        return None
+    nz = [(x, b) for x, b in zip(X.t[k0], B.t[k0]) if b != 0]
+    if not nz:
+        return None
+    c = nz[0][0] / nz[0][1]
+    return c if (X - B * c).t == {} else None
+
+
+def _sqrt_by_registry(X):
+    for b in UNIT_ROOTS:
+        c = _rational_multiple(X, b * b)
+        if c is not None and c >= 0:
+            r = _const_sqrt(c)
+            if r is not None:
+                return r * b
+    return None
+
+
+def _in_unit_interval(X):
+    if X.is_const():
+        z = c_to_complex(X.t.get((), ZERO))
+        return abs(z.imag) < 1e-15 and 0 <= z.real <= 1
+    for b in UNIT_ROOTS:
+        c = _rational_multiple(X, b * b)
+        if c is not None and 0 <= c <= 1:
+            return True
+        c = _rational_multiple(X, b)
+        if c is not None and 0 <= c <= 1:
+            return True
+    return False
+
+
+def _order_by_registry(a, b, opname):
+    """facts of the form  X < 0, X > 1, X <= 1, X >= 0  (and mirrored) for X known to lie in [0, 1]"""
+    if b.is_const() and _in_unit_interval(a):
+        z = c_to_complex(b.t.get((), ZERO)).real
+        if z <= 0 and opname == "lt":
+            return False
+        if z <= 0 and opname == "ge":
+            return True
+        if z >= 1 and opname == "gt":
+            return False
+        if z >= 1 and opname == "le":
+            return True
+        if z < 0 and opname in ("le",):
+            return False
+        if z < 0 and opname in ("gt",):
+            return True
+        if z > 1 and opname in ("ge",):
+            return False
+        if z > 1 and opname in ("lt",):
+            return True
+    if a.is_const() and _in_unit_interval(b):
+        mirror = {"lt": "gt", "gt": "lt", "le": "ge", "ge": "le"}[opname]
+        return _order_by_registry(b, a, mirror)
+    return None
 
 
 def _mono_mul(k1, k2):
